@@ -385,7 +385,7 @@ func uploadHarnesses(full bool) []uploadHarness {
 
 type opScript []string // operation names
 
-var webdavOps = []string{"stat", "readdir", "open", "create", "mkdir", "copy", "move", "removeall"}
+var webdavOps = []string{"stat", "readdir", "open", "create", "mkdir", "copy", "move", "removeall", "options"}
 
 type concHarness struct {
 	Kind    string     `json:"kind"` // webdav | caldav | carddav
@@ -400,6 +400,7 @@ type sharedSystem struct {
 	cfg   func() string // the handler's configuration fields as they are now
 	cfg0  string        // ... as they were when the handler was built
 	kind  string
+	wire  *harness.Wire
 	fs    *harness.MemFS
 	wd    *webdav.Client
 	calB  *harness.CalBackend
@@ -440,7 +441,10 @@ func newSystem(kind string, nThreads int, s *sched.Sched) *sharedSystem {
 		hfs := &harness.HookFS{Inner: webdav.LocalFileSystem(dir), Hook: hook("fs")}
 		wh := &webdav.Handler{FileSystem: hfs}
 		sys.cfg = func() string { return fmt.Sprintf("FileSystem==configured:%v", wh.FileSystem == webdav.FileSystem(hfs)) }
-		w := &harness.Wire{Handler: wh, Hook: hook("wire")}
+		// the handler receives upload bodies in pieces, with a scheduling point before each piece: two
+		// uploads can overlap inside the file system
+		w := &harness.Wire{Handler: wh, Hook: hook("wire"), BodyHook: hook("body"), BodyChunk: 10}
+		sys.wire = w
 		sys.local = dir
 		sys.kind = "webdav"
 		sys.wd, _ = webdav.NewClient(w.Client(), "http://h/")
@@ -458,6 +462,7 @@ func newSystem(kind string, nThreads int, s *sched.Sched) *sharedSystem {
 		wh := &webdav.Handler{FileSystem: fs}
 		sys.cfg = func() string { return fmt.Sprintf("FileSystem==configured:%v", wh.FileSystem == webdav.FileSystem(fs)) }
 		w := &harness.Wire{Handler: wh, Hook: hook("wire")}
+		sys.wire = w
 		sys.fs = fs
 		sys.wd, _ = webdav.NewClient(w.Client(), "http://h/")
 	case "caldav", "caldav-prefix":
@@ -476,6 +481,7 @@ func newSystem(kind string, nThreads int, s *sched.Sched) *sharedSystem {
 		ch := &caldav.Handler{Backend: b, Prefix: prefix}
 		sys.cfg = func() string { return fmt.Sprintf("Prefix=%q Backend==configured:%v", ch.Prefix, ch.Backend == caldav.Backend(b)) }
 		w := &harness.Wire{Handler: ch, Hook: hook("wire")}
+		sys.wire = w
 		sys.calB = b
 		sys.cal, _ = caldav.NewClient(w.Client(), "http://h/")
 	case "carddav", "carddav-prefix":
@@ -493,6 +499,7 @@ func newSystem(kind string, nThreads int, s *sched.Sched) *sharedSystem {
 		ch := &carddav.Handler{Backend: b, Prefix: prefix}
 		sys.cfg = func() string { return fmt.Sprintf("Prefix=%q Backend==configured:%v", ch.Prefix, ch.Backend == carddav.Backend(b)) }
 		w := &harness.Wire{Handler: ch, Hook: hook("wire")}
+		sys.wire = w
 		sys.cardB = b
 		sys.card, _ = carddav.NewClient(w.Client(), "http://h/")
 	}
@@ -531,7 +538,7 @@ func clientSoloObservations(reverse bool) map[string]string {
 	for _, kind := range []string{"webdav", "webdav-local", "caldav", "carddav", "caldav-prefix", "carddav-prefix"} {
 		ops := webdavOps
 		if !strings.HasPrefix(kind, "webdav") {
-			ops = []string{"find", "multiget", "query", "get", "put"}
+			ops = []string{"find", "multiget", "query", "get", "put", "options"}
 		}
 		for _, op := range ops {
 			order = append(order, ko{kind, op})
@@ -568,6 +575,23 @@ func (sys *sharedSystem) runOp(ctx context.Context, s *sched.Sched, tid int, op 
 		}
 	}
 	point(op)
+	if op == "options" {
+		// a plain OPTIONS request on the thread's own collection through the shared wire and handler
+		target := fmt.Sprintf("/t%d", tid)
+		if sys.kind != "webdav" {
+			target = fmt.Sprintf("%s/u/c/k%d/", sys.base, tid)
+		}
+		req, err := http.NewRequestWithContext(ctx, "OPTIONS", "http://h"+target, nil)
+		if err != nil {
+			return errStr(err)
+		}
+		resp, err := sys.wire.RoundTrip(req)
+		if err != nil {
+			return errStr(err)
+		}
+		resp.Body.Close()
+		return fmt.Sprintf("%d DAV=%q Allow=%q", resp.StatusCode, resp.Header.Get("DAV"), resp.Header.Get("Allow"))
+	}
 	switch sys.kind {
 	case "webdav":
 		d := fmt.Sprintf("/t%d", tid)
@@ -870,7 +894,7 @@ func concHarnesses(full bool) []concHarness {
 	out = append(out, concHarness{Kind: "webdav-local", Scripts: []opScript{{"create", "open"}, {"create", "stat"}}},
 		concHarness{Kind: "webdav-local", Scripts: []opScript{{"mkdir", "copy"}, {"removeall", "readdir"}}},
 		concHarness{Kind: "webdav-local", Scripts: []opScript{{"copy"}, {"move"}, {"readdir"}}})
-	davOps := []string{"find", "multiget", "query", "get", "put"}
+	davOps := []string{"find", "multiget", "query", "get", "put", "options"}
 	for _, kind := range []string{"caldav", "carddav"} {
 		for _, a := range davOps {
 			for _, b := range davOps {
